@@ -73,6 +73,8 @@ func main() {
 		runClockSuite(*seed, *n, out, stats)
 	case "accept":
 		runAcceptSuite(*seed, *n, out, stats)
+	case "forks":
+		runForkSuite(*seed, *n, out, stats)
 	case "faults":
 		runFaultSuite(*seed, *n, out, stats)
 	case "crash":
